@@ -214,9 +214,69 @@ func (c *checker) checkAll() {
 	c.checkCloses()
 	c.checkWaitsAndAdds()
 	c.checkProbes()
+	c.checkListenerCalls()
 	c.obs["events_seen_by_recorder"] += int64(c.count(func(e ent) bool { return e.T == tEv }))
 	c.obs["extra_listener_calls"] += int64(c.count(func(e ent) bool { return e.T == tLCall || e.T == tLFail }))
 	c.obs["calls_logged"] += int64(c.count(func(e ent) bool { return e.T == tCall }))
+}
+
+// checkListenerCalls: a close event of scope X (seen by the recorder on the root) reaches the
+// listeners of every scope on the path root … X, in that order and in registration order within a
+// scope, up to and including the first one that returns an error – whether a listener was
+// registered before or after the descendants of its scope were created.
+func (c *checker) checkListenerCalls() {
+	p := c.x.plan
+	if len(p.Ls) == 0 {
+		return
+	}
+	type key struct{ ev, node int }
+	fired := map[key]int{}
+	calls := map[key]map[int]int{}
+	for _, e := range c.es {
+		if e.Ev < evBCo || e.Node < 0 {
+			continue
+		}
+		k := key{e.Ev, e.Node}
+		switch e.T {
+		case tEv:
+			fired[k]++
+		case tLCall, tLFail:
+			if calls[k] == nil {
+				calls[k] = map[int]int{}
+			}
+			calls[k][e.Lid]++
+		}
+	}
+	for k, n := range fired {
+		// path root … X
+		var path []int
+		for v := k.node; ; v = p.Nodes[v].P {
+			path = append([]int{v}, path...)
+			if v == 0 {
+				break
+			}
+		}
+	walk:
+		for _, node := range path {
+			for li, l := range p.Ls {
+				if l.N != node || l.Ev != k.ev {
+					continue
+				}
+				got := calls[k][li]
+				if got != n {
+					c.viol("listener-not-called", fmt.Sprintf("%s of scope %d fired %d time(s) (seen by the recorder on the root), listener L%d registered on scope %d (an ancestor-or-self of %d) for that event was called %d time(s) for it, and no listener before it on the path had failed", evNames[k.ev], k.node, n, li, l.N, k.node, got))
+					break walk
+				}
+				c.obs["listener_deliveries_checked"]++
+				if l.N != k.node {
+					c.obs["listener_deliveries_to_an_ancestor_checked"]++
+				}
+				if l.Mode == 1 || (l.Mode == 2 && l.Mask&(1<<uint(k.node)) != 0) {
+					break walk // a failing listener ends the delivery of this trigger
+				}
+			}
+		}
+	}
 }
 
 func (c *checker) count(f func(ent) bool) int {
